@@ -228,18 +228,54 @@ type verdict struct {
 	ok   bool
 	pred string
 	what string
+	// what identifies the failing input and the failure (all computed without the model):
+	class    string // class of the command whose reply was replaced (faultClass)
+	cmd      string // that command, canonical ("<preamble>", "<change>" for a command of the script)
+	symptom  string // what was observed
+	kind     string // the fault kind as the oracle classifies it (WARNING: in place of show output = unexpected)
+	method   string // HTTP: method of the request whose reply was replaced
+	replayed bool   // HTTP close: the same request arrived a second time on a new connection
 }
 
+// sig is the signature of a failure: the known-findings file pins these attributes, so that a
+// different command, fault kind, symptom, or a failure the model of the unchanged code does not
+// predict for this input, is reported as new.
+func (v verdict) sig(c CaseIn, kind string, modelPredicts bool) map[string]any {
+	s := map[string]any{"pred": v.pred, "backend": c.Scen.Backend, "model_predicts": modelPredicts}
+	if v.kind != "" {
+		kind = v.kind
+	}
+	if kind != "" {
+		s["kind"] = kind
+	}
+	if v.class != "" {
+		s["class"] = v.class
+	}
+	if v.cmd != "" {
+		s["cmd"] = v.cmd
+	}
+	if v.symptom != "" {
+		s["symptom"] = v.symptom
+	}
+	if v.method != "" {
+		s["method"] = v.method
+		s["replay_observed"] = v.replayed
+	}
+	return s
+}
+
+// statusResult: result and policy of the record of this action ("DIFF/p1"); the policy tells a
+// record written by this run (p1) from a pre-seeded one (p0).
 func statusResult(status string, compare bool) string {
 	var v struct {
-		Approve struct{ Result string } `json:"approve"`
-		Compare struct{ Result string } `json:"compare"`
+		Approve struct{ Result, Policy string } `json:"approve"`
+		Compare struct{ Result, Policy string } `json:"compare"`
 	}
 	json.Unmarshal([]byte(status), &v)
 	if compare {
-		return v.Compare.Result
+		return v.Compare.Result + "/" + v.Compare.Policy
 	}
-	return v.Approve.Result
+	return v.Approve.Result + "/" + v.Approve.Policy
 }
 
 var endRe = regexp.MustCompile(`(?m) END: (\S+)$`)
@@ -274,6 +310,18 @@ var sessionLines = map[string]bool{"secret": true, "yes": true, "enable": true, 
 	"logging synchronous level all": true, "ip subnet-zero": true, "ip classless": true, "reload in 2": true,
 	"n": true, "reload cancel": true, "exit": true}
 
+// commands of the session itself whose output the program only logs or does not read at all
+// (per backend); everything else that is not classified below is "unknown"
+var setupOrShow = map[string]map[string]bool{
+	"ASA": {"<secret>": true, "enable": true, "sh pager": true, "terminal pager 0": true, "sh term": true,
+		"configure terminal": true, "terminal width 511": true, "end": true, "sh ver": true, "yes": true},
+	"IOS": {"<secret>": true, "enable": true, "term len 0": true, "term width 512": true, "sh ver": true,
+		"configure terminal": true, "end": true, "no logging console": true, "line vty 0 15": true,
+		"logging synchronous level all": true, "ip subnet-zero": true, "ip classless": true,
+		"reload in 2": true, "do reload in 2": true, "n": true, "reload cancel": true, "do reload cancel": true, "yes": true},
+	"Linux": {"<secret>": true, "yes": true, "PS1=router#": true, "uname -r": true, "uname -m": true},
+}
+
 // classify the command at the fault position for the signature of a finding
 func faultClass(backend string, lines []string, faultAt int, kind string, base plan, baseE plan) string {
 	if faultAt <= 0 || faultAt > len(lines) {
@@ -289,30 +337,74 @@ func faultClass(backend string, lines []string, faultAt int, kind string, base p
 	switch {
 	case inPlan:
 		return "change"
-	case l == "show hostname" || l == "hostname -s":
+	case l == "show hostname" || l == "hostname -s" || (backend == "IOS" && l == ""):
 		return "name_check" // the output is compared with the device name: inspected
-	case l == "write term" || l == "sh run":
+	case l == "write term" || l == "sh run" || l == "iptables-save" || l == "ip route show" ||
+		l == "get config" || l == "gateway-policies" || l == "services" || l == "groups" || strings.HasPrefix(l, "GET "):
 		return "retrieval"
 	case l == "write memory" || l == "commit" || l == "show jobs" ||
 		(l == "" && faultAt >= 2 && canonLine(backend, lines[faultAt-2]) == "write memory"):
 		return "save"
-	case l == "echo $?":
+	case l == "echo $?" || l == "which iptables-restore" || strings.HasPrefix(l, "grep "):
 		return "probe"
+	case l == "keygen" || l == "show ha" || l == "session create":
+		return "login"
+	case strings.HasPrefix(l, "chmod a+x /etc/network/") || l == "/etc/network/packet-filter.new" || strings.HasPrefix(l, "mv -f /etc/network/"):
+		return "activate"
+	case setupOrShow[backend][l]:
+		return "setup_or_show"
 	}
-	return "setup_or_show"
+	return "unknown"
 }
 
-// check the property on one real run. joined: set of "a\x00b" pairs of the plans.
+// scpOK: the stand-in for scp (not the program's log) recorded a successful copy of that file
+func scpOK(o CaseOut, what string) bool {
+	for _, e := range o.ScpLog {
+		if e == what+":ok" {
+			return true
+		}
+	}
+	return false
+}
+
+// sessionVocab: the commands of the session itself, per backend (a fixed vocabulary, not taken
+// from a run of the program under test): anything else that is not part of the planner's script
+// is a foreign command.
+func sessionVocab(backend, cl string) bool {
+	switch backend {
+	case "ASA", "IOS":
+		return sessionLines[cl] || setupOrShow[backend][cl]
+	case "Linux":
+		return setupOrShow[backend][cl] || cl == "hostname -s" || strings.HasPrefix(cl, "grep '") && strings.HasSuffix(cl, "' /etc/issue") ||
+			cl == "iptables-save" || cl == "ip route show" || cl == "which iptables-restore" || cl == "echo $?" || cl == "exit"
+	case "PAN-OS":
+		return cl == "keygen" || cl == "show ha" || cl == "get config" || cl == "commit" || cl == "show jobs"
+	case "NSX":
+		return cl == "session create" || cl == "gateway-policies" || cl == "services" || cl == "groups" ||
+			strings.HasPrefix(cl, "GET /policy/api/v1/infra/domains/default/gateway-policies/")
+	}
+	return false
+}
+
+// check the property on one real run (without the model).
 func oracle(c CaseIn, o CaseOut, base, baseE plan) verdict {
 	compare := c.Mode == "compare"
 	doapp := c.Tool == "doapprove"
 	res := statusResult(o.Status, compare)
 	end := historyEnd(o.History)
 	if o.Hung {
-		return verdict{false, "run_never_ends", fmt.Sprintf("the run was still alive %v after its start (time-out of the program: %d s): no exit status, nothing recorded", runBound(c), c.timeout())}
+		return verdict{ok: false, pred: "run_never_ends", symptom: "still_running", what: fmt.Sprintf("the run was still alive %v after its start (time-out of the program: %d s): no exit status, nothing recorded", runBound(c), c.timeout())}
 	}
 	if o.Panic != "" {
-		return verdict{false, "go_panic", "runtime panic: " + o.Panic}
+		return verdict{ok: false, pred: "go_panic", symptom: "panic", what: "runtime panic: " + o.Panic}
+	}
+	linux := c.Scen.Backend == "Linux"
+	realscp := c.Scen.Shape["realscp"] == 1
+	// Linux: what reached the device is what the stand-in for scp recorded, not what the
+	// program wrote into its own log (with the SIMULATE_ROUTER short-cut nothing is copied at all)
+	copiedRouting, copiedTables := o.ScpRouting, o.ScpTables
+	if linux && realscp {
+		copiedRouting, copiedTables = scpOK(o, "routing"), scpOK(o, "iptables")
 	}
 	joined := map[string]bool{}
 	for _, p := range []plan{base, baseE} {
@@ -328,12 +420,12 @@ func oracle(c CaseIn, o CaseOut, base, baseE plan) verdict {
 		kindEff = "unexpected"
 	}
 	c.FaultKind = kindEff
+	extras := []string{"chmod a+x /etc/network/packet-filter.new", "/etc/network/packet-filter.new",
+		"mv -f /etc/network/packet-filter.new /etc/network/packet-filter"}
 	// every run, whatever happens: the change commands the device received are a prefix of the
 	// planner's script (Linux: then of the three activation commands; PAN-OS: a command may be
 	// repeated once by net/http) -- never a foreign command, never out of order
 	{
-		extras := []string{"chmod a+x /etc/network/packet-filter.new", "/etc/network/packet-filter.new",
-			"mv -f /etc/network/packet-filter.new /etc/network/packet-filter"}
 		isPrefixOf := func(got, want []string) bool {
 			if len(got) > len(want) {
 				return false
@@ -348,7 +440,7 @@ func oracle(c CaseIn, o CaseOut, base, baseE plan) verdict {
 		okAny := false
 		for _, p := range []plan{base, baseE} {
 			want := p.lines()
-			if c.Scen.Backend == "Linux" && p.ipt {
+			if linux && p.ipt {
 				want = append(append([]string{}, want...), extras...)
 			}
 			inWant := map[string]bool{}
@@ -370,14 +462,37 @@ func oracle(c CaseIn, o CaseOut, base, baseE plan) verdict {
 			}
 		}
 		if !okAny {
-			return verdict{false, "change_commands_not_a_prefix_of_the_script", "the change commands received are not a prefix of the planner's script"}
+			return verdict{ok: false, pred: "change_commands_not_a_prefix_of_the_script", symptom: "script_order", what: "the change commands received are not a prefix of the planner's script"}
+		}
+		// a command that is neither part of the session of this scenario nor of the script
+		isKnown := map[string]bool{}
+		for _, x := range append(append(base.lines(), baseE.lines()...), extras...) {
+			isKnown[x] = true
+		}
+		for _, l := range o.Lines {
+			cl := canonLine(c.Scen.Backend, l)
+			if !isKnown[cl] && !sessionVocab(c.Scen.Backend, cl) {
+				return verdict{ok: false, pred: "foreign_command", symptom: "foreign_command", cmd: cl, what: fmt.Sprintf("the device received %q, which is neither a command of the session nor of the planner's script", cl)}
+			}
 		}
 	}
 	if o.FaultAt >= 0 && !benignKind(c.FaultKind) {
 		// a device-side failure was injected
 		cls := faultClass(c.Scen.Backend, o.Lines, o.FaultAt, c.FaultKind, base, baseE)
+		cmd := "<preamble>"
+		if o.FaultAt >= 1 && o.FaultAt <= len(o.Lines) {
+			cmd = canonLine(c.Scen.Backend, o.Lines[o.FaultAt-1])
+			if cls == "change" {
+				cmd = "<change>"
+			} else if strings.HasPrefix(cmd, "grep ") {
+				cmd = "grep"
+			} else if strings.HasPrefix(cmd, "GET ") || strings.HasPrefix(cmd, "PUT ") || strings.HasPrefix(cmd, "PATCH ") || strings.HasPrefix(cmd, "DELETE ") {
+				cmd, _, _ = strings.Cut(cmd, " ")
+			}
+		}
 		if strings.HasPrefix(c.FaultKind, "scpfail_") {
 			cls = "save"
+			cmd = "<scp>"
 		}
 		pred := "other"
 		if c.FaultKind == "savefail_ok" && cls == "save" {
@@ -394,10 +509,21 @@ func oracle(c CaseIn, o CaseOut, base, baseE plan) verdict {
 				pred = "output_of_save_command_not_inspected_beyond_confirmation"
 			}
 		}
-		if isHTTP(c.Scen.Backend) && c.FaultKind == "close" && cls != "change" || c.Scen.Backend == "PAN-OS" && c.FaultKind == "close" {
-			if pred == "other" {
+		v := verdict{class: cls, cmd: cmd, kind: c.FaultKind}
+		if isHTTP(c.Scen.Backend) && c.FaultKind == "close" && o.FaultAt >= 1 && o.FaultAt <= len(o.Lines) {
+			// net/http replays a replayable request on a closed reused connection: observed iff
+			// the same request arrives again, next, on another connection
+			v.method, _, _ = strings.Cut(o.Lines[o.FaultAt-1], " ")
+			i := o.FaultAt
+			v.replayed = i < len(o.Lines) && o.Lines[i] == o.Lines[i-1] && i < len(o.Conns) && o.Conns[i] != o.Conns[i-1]
+			if pred == "other" && v.replayed {
 				pred = "closed_connection_replayed_by_net_http"
 			}
+		}
+		v.pred = pred
+		fail := func(symptom, what string) verdict {
+			v.ok, v.symptom, v.what = false, symptom, what
+			return v
 		}
 		if c.Scen.Backend == "NSX" && c.FaultKind == "malformed" && (cls == "change" || o.FaultAt == 1) {
 			// NSX defines success of these requests by the status code: not a failure
@@ -405,11 +531,9 @@ func oracle(c CaseIn, o CaseOut, base, baseE plan) verdict {
 		}
 		// content classification of what the device received (independent of the model):
 		// change = a command of the planner's script (or one of Linux' fixed activation commands),
-		// save = write memory / commit / job poll
-		isChange := map[string]bool{"chmod a+x /etc/network/packet-filter.new": true, "/etc/network/packet-filter.new": true,
-			"mv -f /etc/network/packet-filter.new /etc/network/packet-filter": true,
-			"write memory": true, "commit": true, "show jobs": true}
-		for _, x := range append(base.lines(), baseE.lines()...) {
+		// save = write memory / commit / job poll; a foreign command counts as a change
+		isChange := map[string]bool{"write memory": true, "commit": true, "show jobs": true}
+		for _, x := range append(append(base.lines(), baseE.lines()...), extras...) {
 			isChange[x] = true
 		}
 		after := o.Lines[min(o.FaultAt, len(o.Lines)):]
@@ -418,35 +542,41 @@ func oracle(c CaseIn, o CaseOut, base, baseE plan) verdict {
 			if i == 0 && o.FaultAt >= 1 && joined[canonLine(c.Scen.Backend, o.Lines[o.FaultAt-1])+"\x00"+cl] {
 				continue // second half of the packet that was already on the wire
 			}
+			if i == 0 && v.replayed {
+				continue // the replay of the unanswered request by net/http (judged by what follows)
+			}
 			if isChange[cl] {
-				return verdict{false, pred, fmt.Sprintf("%q sent after the failure (%s at the reply to line %d, a %s command)", cl, c.FaultKind, o.FaultAt, cls)}
+				return fail("change_sent_after_failure", fmt.Sprintf("%q sent after the failure (%s at the reply to line %d, a %s command)", cl, c.FaultKind, o.FaultAt, cls))
 			}
 		}
-		if o.ScpRouting && c.Scen.Backend == "Linux" && c.FaultKind != "scpfail_routing" {
+		if copiedRouting && linux && c.FaultKind != "scpfail_routing" {
 			// routing start-up file is copied last: must not happen after a failure
-			return verdict{false, pred, "start-up routing file copied after the failure"}
+			return fail("startup_file_copied_after_failure", "start-up routing file copied after the failure")
 		}
 		if o.Exit == 0 {
-			return verdict{false, pred, fmt.Sprintf("exit status 0 after %s at line %d (%s)", c.FaultKind, o.FaultAt, cls)}
+			return fail("exit_0_after_failure", fmt.Sprintf("exit status 0 after %s at line %d (%s)", c.FaultKind, o.FaultAt, cls))
 		}
 		if doapp {
-			want := "FAILED"
+			want := "FAILED/p1"
 			if compare {
-				want = "DIFF"
+				want = "DIFF/p1"
+				if c.PrevDiff {
+					want = "DIFF/p0" // already recorded as different: the record is left as it is
+				}
 			}
 			if res != want {
-				return verdict{false, pred, fmt.Sprintf("status %q after the failure, want %s", res, want)}
+				return fail("status_not_failed", fmt.Sprintf("status %q after the failure, want %s", res, want))
 			}
 			if end != "FAILED" {
-				return verdict{false, pred, fmt.Sprintf("history END: %q after the failure", end)}
+				return fail("history_end_not_failed", fmt.Sprintf("history END: %q after the failure", end))
 			}
 		}
 		return verdict{ok: true}
 	}
 	// no failure injected (or a benign notice): OK only if everything was sent, accepted and saved
-	if !compare && (o.Exit == 0 || (doapp && (res == "OK" || end == "OK"))) {
-		if o.Exit != 0 || (doapp && (res != "OK" || end != "OK")) {
-			return verdict{false, "inconsistent_report", fmt.Sprintf("exit %d, status %q, END %q", o.Exit, res, end)}
+	if !compare && (o.Exit == 0 || (doapp && (res == "OK/p1" || end == "OK"))) {
+		if o.Exit != 0 || (doapp && (res != "OK/p1" || end != "OK")) {
+			return verdict{ok: false, pred: "inconsistent_report", symptom: "inconsistent_report", what: fmt.Sprintf("exit %d, status %q, END %q", o.Exit, res, end)}
 		}
 		var got []string
 		for _, l := range o.Lines {
@@ -460,7 +590,7 @@ func oracle(c CaseIn, o CaseOut, base, baseE plan) verdict {
 			}
 		}
 		if j != len(want) {
-			return verdict{false, "ok_without_all_commands", fmt.Sprintf("OK reported but command %q was not sent", want[j])}
+			return verdict{ok: false, pred: "ok_without_all_commands", symptom: "command_missing", what: fmt.Sprintf("OK reported but command %q was not sent", want[j])}
 		}
 		if len(want) > 0 || base.ipt {
 			saved := true
@@ -473,13 +603,28 @@ func oracle(c CaseIn, o CaseOut, base, baseE plan) verdict {
 				n := len(g)
 				saved = n >= 1 && (g[n-1] == "write memory" || (n >= 2 && g[n-2] == "write memory" && g[n-1] == ""))
 			case "Linux":
-				saved = (!base.ipt || o.ScpTables) && (len(want) == 0 || o.ScpRouting)
+				saved = (!base.ipt || copiedTables) && (len(want) == 0 || copiedRouting)
 			case "PAN-OS":
 				saved = len(got) >= 1 && (got[len(got)-1] == "show jobs" || got[len(got)-1] == "commit")
 			}
 			if !saved {
-				return verdict{false, "ok_without_save", "OK reported but the save/commit was not the last step"}
+				return verdict{ok: false, pred: "ok_without_save", symptom: "not_saved", what: "OK reported but the save/commit was not the last step (Linux: the start-up file did not reach the device)"}
 			}
+		}
+	}
+	if compare && doapp && o.Exit == 0 && !strings.Contains(o.Log, "ERROR>>>") {
+		// compare without failure: the record of THIS run (policy p1) says UPTODATE or DIFF, and
+		// DIFF exactly if a difference was logged; a pre-seeded DIFF is left as it is
+		chg := strings.Contains(o.Log, "comp: ***")
+		want := "UPTODATE/p1"
+		if chg {
+			want = "DIFF/p1"
+			if c.PrevDiff {
+				want = "DIFF/p0"
+			}
+		}
+		if res != want {
+			return verdict{ok: false, pred: "compare_record_wrong", symptom: "status_record", what: fmt.Sprintf("compare without failure, difference logged: %v, status record %q, want %s", chg, res, want)}
 		}
 	}
 	return verdict{ok: true}
@@ -719,11 +864,17 @@ func run(ctx *Ctx) *Result {
 			if !applicable(pos, k2) {
 				k2 = "silence"
 			}
-			cases = append(cases, CaseIn{Scen: s, Tool: "doapprove", Mode: "compare", FaultPos: pos, FaultKind: k, PrevDiff: pos%2 == 1})
+			// the status file: absent, or with an older record (policy p0) that says DIFF resp.
+			// UPTODATE -- the record written by this run names policy p1
+			cases = append(cases, CaseIn{Scen: s, Tool: "doapprove", Mode: "compare", FaultPos: pos, FaultKind: k, PrevDiff: pos%3 == 1, PrevUp: pos%3 == 2})
 			cases = append(cases, CaseIn{Scen: s, Tool: "drc", Mode: "approve", FaultPos: pos, FaultKind: k2})
+			cases = append(cases, CaseIn{Scen: s, Tool: "drc", Mode: "compare", FaultPos: pos, FaultKind: k2}) // drc -C
 		}
 		cases = append(cases, CaseIn{Scen: s, Tool: "doapprove", Mode: "compare", FaultPos: -1})
+		cases = append(cases, CaseIn{Scen: s, Tool: "doapprove", Mode: "compare", FaultPos: -1, PrevDiff: true})
+		cases = append(cases, CaseIn{Scen: s, Tool: "doapprove", Mode: "compare", FaultPos: -1, PrevUp: true})
 		cases = append(cases, CaseIn{Scen: s, Tool: "drc", Mode: "approve", FaultPos: -1})
+		cases = append(cases, CaseIn{Scen: s, Tool: "drc", Mode: "compare", FaultPos: -1}) // drc -C
 	}
 	evalCases(ctx, res, drv, cases, nw, false)
 	res.Exhaustive = false
@@ -752,6 +903,16 @@ var timedOutRe = regexp.MustCompile(`timer expired|Client\.Timeout|deadline exce
 // timedOut: the program under test ran into one of its time-outs
 func timedOut(o CaseOut) bool {
 	return timedOutRe.MatchString(o.Log) || timedOutRe.MatchString(o.Stderr)
+}
+
+// timeoutKind: the injected fault itself makes the program run into a time-out
+func timeoutKind(k string) bool {
+	return k == "silence" || k == "truncated" || k == "stall_partial" || k == "stall_body"
+}
+
+// envSuspect: the run carries marks of trouble of the test machine
+func envSuspect(c CaseIn, o CaseOut) bool {
+	return envNoise(o) || timedOut(o) && (!timeoutKind(c.FaultKind) || o.FaultAt < 0)
 }
 
 // rerunSerial runs the given cases again, one after the other, with the long time-out, as long
@@ -834,7 +995,7 @@ func modelLine(c CaseIn, p *plans) (line string, untok map[string]string) {
 		kind = "-"
 	}
 	line = strings.Join([]string{c.Scen.Backend, c.Mode, shapeStr(c.Scen.Shape), encPlan(p.g, tok), encPlan(p.e, tok),
-		strconv.Itoa(b2i(p.g.ipt)), strconv.Itoa(b2i(p.e.ipt)), fp, kind, strconv.Itoa(b2i(c.PrevDiff)), "50"}, "\t")
+		strconv.Itoa(b2i(p.g.ipt)), strconv.Itoa(b2i(p.e.ipt)), fp, kind, strconv.Itoa(b2i(c.PrevDiff) + 2*b2i(c.PrevUp)), "50"}, "\t")
 	return
 }
 
@@ -888,7 +1049,7 @@ func judge(c CaseIn, o CaseOut, p *plans, ans string, untok map[string]string) j
 		// a closed device does not record what is still written to it
 		modelSends = modelSends[:o.FaultAt]
 	}
-	mExit, mStatus, mEnd := m["exit"], strings.SplitN(m["status"], "/", 2)[0], m["end"]
+	mExit, mStatus, mEnd := m["exit"], m["status"], m["end"]
 	if c.Tool == "drc" {
 		mExit, mStatus, mEnd = m["dexit"], "-", "-"
 	}
@@ -965,10 +1126,16 @@ func evalCases(ctx *Ctx, res *Result, drv *Nadrv, cases []CaseIn, nw int, verbos
 		line, untok := modelLine(c, pl[c.Scen.ID])
 		untoks[i] = untok
 		js[i] = judge(c, outs[i], pl[c.Scen.ID], drv.Ask(line), untok)
-		if js[i].disagrees() || envNoise(outs[i]) {
+		// A first verdict is never replaced by a second run; a second run may only CONFIRM a
+		// disagreement whose first run carries the marks of trouble of the test machine (a
+		// time-out the injected fault cannot have caused, pty / process shortage, a dead or hung
+		// worker, the lost final `exit`).  Every other disagreement is reported as it is.
+		if js[i].disagrees() && envSuspect(c, outs[i]) || js[i].exitLost {
 			suspects = append(suspects, i)
 		}
 	}
+	hard := map[int]judged{}   // failures of the oracle in a first run that was run again
+	exitLostTwice := map[int]bool{}
 	// serial phase: the suspects once more, alone, with longer time-outs
 	if len(suspects) > 0 && ctx.Replay == "" {
 		var sc []CaseIn
@@ -983,6 +1150,18 @@ func evalCases(ctx *Ctx, res *Result, drv *Nadrv, cases []CaseIn, nw int, verbos
 			}
 			res.Count("suspect_repeated_serially")
 			j2 := judge(cases[i], o2[k], pl[cases[i].Scen.ID], js[i].ans, untoks[i])
+			if v1 := js[i].v; !v1.ok && v1.pred != "go_panic" && v1.pred != "run_never_ends" {
+				// trouble of the test machine only ever makes a run stop early: what the oracle
+				// saw in the first run (a change after the failure, exit 0, ...) stands
+				hard[i] = js[i]
+			}
+			if js[i].exitLost {
+				if j2.exitLost {
+					exitLostTwice[i] = true // not a race: the line is missing every time
+				} else {
+					res.Count("final_exit_line_not_observed")
+				}
+			}
 			if !j2.disagrees() {
 				// inconclusive first run: time-out or resource shortage of the test machine
 				res.Count("inconclusive_first_run_not_reproduced")
@@ -1000,7 +1179,7 @@ func evalCases(ctx *Ctx, res *Result, drv *Nadrv, cases []CaseIn, nw int, verbos
 		if kind == "" {
 			kind = "-"
 		}
-		canon := fmt.Sprintf("%s|%s|%s|%d|%s|%v", c.Scen.ID, c.Tool, c.Mode, c.FaultPos, c.FaultKind, c.PrevDiff)
+		canon := fmt.Sprintf("%s|%s|%s|%d|%s|%v|%v", c.Scen.ID, c.Tool, c.Mode, c.FaultPos, c.FaultKind, c.PrevDiff, c.PrevUp)
 		res.Eval(canon, c.FaultPos >= 0 || len(p.g.packets) > 0)
 		res.Count("backend:" + c.Scen.Backend)
 		res.Count("kind:" + kind)
@@ -1010,8 +1189,13 @@ func evalCases(ctx *Ctx, res *Result, drv *Nadrv, cases []CaseIn, nw int, verbos
 			res.Count("fault_at_class:" + faultClass(c.Scen.Backend, o.Lines, o.FaultAt, c.FaultKind, p.g, p.e))
 		}
 		res.TracesVsImpl++
-		if j.exitLost {
-			res.Count("final_exit_line_not_observed")
+		if exitLostTwice[i] {
+			res.Disagree("fault-matrix", c, j.impl+" (final exit line missing in two runs)", j.model+";exit")
+		}
+		if h, ok := hard[i]; ok {
+			c1 := c
+			c1.TimeoutS = 0
+			res.Fail(h.v.sig(c1, c1.FaultKind, !h.modelHolds), h.v.what+" (first run; the repetition with longer time-outs is judged separately)", c1)
 		}
 		if j.impl != j.model {
 			res.Disagree("fault-matrix", c, j.impl, j.model)
@@ -1024,7 +1208,9 @@ func evalCases(ctx *Ctx, res *Result, drv *Nadrv, cases []CaseIn, nw int, verbos
 			res.Disagree("model-safe-checked", c, "n/a", ans)
 		}
 		if !v.ok {
-			res.Fail(map[string]any{"pred": v.pred, "backend": c.Scen.Backend}, v.what, c)
+			// model_predicts: the model of the unchanged code, run on this input, says itself that
+			// the property fails here (its own specification predicates on its own trace)
+			res.Fail(v.sig(c, c.FaultKind, !j.modelHolds), v.what, c)
 		}
 		if v.ok != j.modelHolds && v.pred != "go_panic" {
 			res.Disagree("oracle-vs-model-spec", c, fmt.Sprintf("oracle ok=%v %s", v.ok, v.what), ans)
